@@ -1,7 +1,7 @@
 SPECIFICATION Spec
 CONSTANTS
-  Alphabet = {"lt", "gt", "slash", "qmark", "bang", "eq", "dq", "sp", "nl", "x", "nul"}
-  MaxLen = 5
+  Alphabet = {"doctype", "cdo", "cdc", "lt", "gt", "lb", "rb", "dq", "sq", "x", "nul"}
+  MaxLen = 6
   Emit = TRUE
   VoidClosesTag = TRUE
   NameStopNeedsGt = TRUE
